@@ -36,8 +36,8 @@ namespace Utv.C17
 /-- every declaration a use can reach exists (`S`: the reachable set, closed under mention) -/
 def Reaches (defs : List (Name × Decl)) (S : List Name) : Prop :=
   ∀ k ∈ S, ∃ d, lookupD k defs = some d ∧ (∀ n ∈ d.allNames, n ∈ S) ∧
-    -- a base class is reached too; `Modelled`: the model follows one level of inheritance
-    (∀ b, d.base = some b → b ∈ S ∧ ∀ db, lookupD b defs = some db → db.base = none)
+    -- base classes are reached too (chains of any depth, any number of bases)
+    (∀ b ∈ d.bases, b ∈ S)
 
 /-- finding `local-sibling-ref`: some reachable declaration names, through a string, a class that is
 neither bound in the module namespace nor the declaring class itself -/
@@ -80,7 +80,7 @@ theorem useTop_spec {cval : Cell → Ty} (leaf : Val → Option Val) (fuel : Nat
     (h : Inv cval s defs) {S : List Name} {k : Name} (hk : k ∈ S) (hS : Closed defs S) (kvs : List (Nat × Val)) :
     (useTop Cfg.fixed leaf fuel s k kvs).2 = specParse leaf (envOf defs) fuel (.data k) (.dict kvs) ∧
     Inv cval (useTop Cfg.fixed leaf fuel s k kvs).1 defs := by
-  obtain ⟨s1, ps1, d, hr, hinv1, _, _, _⟩ := resolveParser_ok h hS hk
+  obtain ⟨s1, ps1, hr, hinv1, _, _⟩ := resolveParser_ok h hS hk
   simp only [useTop, hr]
   exact parse_spec leaf hS fuel s1 (.data k) (.dict kvs) hinv1 (by simpa [TyIn] using hk)
 
@@ -118,11 +118,12 @@ succeeds and leaves the parser with exactly the directly written field types (st
 of `Ty`), nothing pending. -/
 theorem C17_types_after_resolution {cval : Cell → Ty} {s : State} {defs : List (Name × Decl)} (h : Inv cval s defs)
     {S : List Name} {k : Name} (hk : k ∈ S) (hr : Reaches defs S) (hd : KnownDefect.localSibling defs S = false) :
-    ∃ s1 ps1 d, resolveParser Cfg.fixed s k = (s1, true) ∧ lookupD k defs = some d ∧
-      lookupP k s1.parsers = some ps1 ∧ allFields s1.parsers ps1 = directFields defs d ∧
+    ∃ s1 ps1, resolveParser Cfg.fixed s k = (s1, true) ∧
+      lookupP k s1.parsers = some ps1 ∧
+      allFieldsF s1.parsers.length s1.parsers k = directFieldsF defs.length defs k ∧
       Inv cval s1 defs := by
-  obtain ⟨s1, ps1, d, h1, h2, h3, h4, h5⟩ := resolveParser_ok h (closed_of_reaches hr hd) hk
-  exact ⟨s1, ps1, d, h1, h3, h4, h5, h2⟩
+  obtain ⟨s1, ps1, h1, h2, h3, h4⟩ := resolveParser_ok h (closed_of_reaches hr hd) hk
+  exact ⟨s1, ps1, h1, h3, h4, h2⟩
 
 /-! ### the full statement for module-level programs -/
 
@@ -299,15 +300,19 @@ theorem C17_definition_order_irrelevant (cval : Cell → Ty) (leaf : Val → Opt
     (run Cfg.fixed leaf fuel State.init (ops₂ ++ [.use k kvs])).getLast? := by
   rw [C17_resolved_eq_direct_partial cval leaf fuel _ h₁, C17_resolved_eq_direct_partial cval leaf fuel _ h₂,
       specRun_append, specRun_append]
-  have hdf : directFields (defsOf ops₁) = directFields (defsOf ops₂) := by
-    funext d
-    simp only [directFields]
-    cases d.base with
-    | none => rfl
-    | some b => simp only [lookupD_perm b hperm hnd]
+  have hdf : ∀ (n : Nat) (k' : Name), directFieldsF n (defsOf ops₁) k' = directFieldsF n (defsOf ops₂) k' := by
+    intro n
+    induction n with
+    | zero => intro k'; simp only [directFieldsF, lookupD_perm k' hperm hnd]
+    | succ n ih =>
+      intro k'
+      simp only [directFieldsF, lookupD_perm k' hperm hnd]
+      cases lookupD k' (defsOf ops₂) with
+      | none => rfl
+      | some d => simp only [flatMap_congr' (fun b _ => ih b)]
   have : envOf (defsOf ops₁) = envOf (defsOf ops₂) := by
     funext k'
-    simp only [envOf, lookupD_perm k' hperm hnd, hdf]
+    simp only [envOf, lookupD_perm k' hperm hnd, hdf, hperm.length_eq]
   simp [specRun, this]
 
 /-! ### the property in its own words: same as the declaration written with direct references -/
@@ -389,24 +394,33 @@ theorem fields_direct_toDirect (d : Decl) :
     d.toDirect.fields.map (fun p => (p.1, p.2.direct)) = d.fields.map (fun p => (p.1, p.2.direct)) := by
   simp [Decl.toDirect, List.map_map, Function.comp_def, fieldAnn_direct_toDirect]
 
-theorem directFields_dirDefs (defs : List (Name × Decl)) (d : Decl) :
-    directFields (dirDefs defs) d.toDirect = directFields defs d := by
-  have hb : d.toDirect.base = d.base := rfl
-  simp only [directFields, hb, fields_direct_toDirect]
-  cases d.base with
-  | none => rfl
-  | some b =>
-    simp only [lookupD_dirDefs]
-    cases lookupD b defs with
+theorem directFieldsF_dirDefs (defs : List (Name × Decl)) : ∀ (n : Nat) (k : Name),
+    directFieldsF n (dirDefs defs) k = directFieldsF n defs k := by
+  intro n
+  induction n with
+  | zero =>
+    intro k
+    simp only [directFieldsF, lookupD_dirDefs]
+    cases lookupD k defs with
     | none => rfl
-    | some db => simp [fields_direct_toDirect]
+    | some d => simp [fields_direct_toDirect]
+  | succ n ih =>
+    intro k
+    simp only [directFieldsF, lookupD_dirDefs]
+    cases lookupD k defs with
+    | none => rfl
+    | some d =>
+      have hb : d.toDirect.bases = d.bases := rfl
+      simp only [Option.map_some, hb, fields_direct_toDirect, flatMap_congr' (fun b _ => ih b)]
 
 theorem envOf_dirDefs (defs : List (Name × Decl)) : envOf (dirDefs defs) = envOf defs := by
   funext k
   simp only [envOf, lookupD_dirDefs]
   cases lookupD k defs with
   | none => rfl
-  | some d => simp [directFields_dirDefs]
+  | some d =>
+    have hlen : (dirDefs defs).length = defs.length := by simp [dirDefs]
+    simp [hlen, directFieldsF_dirDefs]
 
 theorem specRun_toDirect (leaf : Val → Option Val) (fuel : Nat) : ∀ (ops : List Op) (defs : List (Name × Decl)),
     specRun leaf fuel (dirDefs defs) (ops.map Op.toDirect) = specRun leaf fuel defs ops := by
@@ -466,18 +480,7 @@ theorem progOK_toDirect (cval : Cell → Ty) : ∀ (ops : List Op) (defs : List 
       refine ⟨⟨S, hk, ?_, ?_⟩, ih defs hrest⟩
       · intro k' hk'
         obtain ⟨d, hl, hall, hbase⟩ := hr k' hk'
-        refine ⟨d.toDirect, by simp [lookupD_dirDefs, hl], by simpa [decl_allNames_toDirect] using hall, ?_⟩
-        intro b hb
-        obtain ⟨hbS, hdep⟩ := hbase b hb
-        refine ⟨hbS, ?_⟩
-        intro db hdb
-        rw [lookupD_dirDefs] at hdb
-        cases hl' : lookupD b defs with
-        | none => simp [hl'] at hdb
-        | some db' =>
-          simp only [hl', Option.map_some, Option.some.injEq] at hdb
-          subst hdb
-          exact hdep db' hl'
+        exact ⟨d.toDirect, by simp [lookupD_dirDefs, hl], by simpa [decl_allNames_toDirect] using hall, hbase⟩
       · simp only [KnownDefect.localSibling, List.any_eq_false]
         intro k' _
         simp only [lookupD_dirDefs]
@@ -539,7 +542,7 @@ theorem C17_legacy_union_witness :
 /-- class A (name 0): `f0: 'B'`;  class C (name 2) inherits from A;  B is declared last -/
 def progInherit : List Op :=
   [.defn 0 { fields := [(0, .str 7 (.name 1))] },
-   .defn 2 { fields := [(2, .plain .int)], base := some 0 },
+   .defn 2 { fields := [(2, .plain .int)], bases := [0] },
    .defn 1 declB,
    .use 2 [(0, .dict [(50, .int 5)])]]
 
@@ -548,6 +551,34 @@ holds the base's unevaluated ForwardRef. -/
 theorem C17_legacy_inherited_witness :
     (run ⟨true, true, false⟩ leaf0 10 State.init progInherit).map Outcome.kind = [1] ∧
     (specRun leaf0 10 [] progInherit).map Outcome.kind = [0] := by decide
+
+/-- three levels: Document (0) names 'Person' (3); Article(Document) (1) and BlogPost(Article) (2) add
+plain fields only; Person is declared last and the most derived class is the first one used -/
+def progChain : List Op :=
+  [.defn 0 { fields := [(0, .str 7 (.name 3)), (1, .plain (.list (.quoted 1 3)))] },
+   .defn 1 { fields := [(2, .plain .int)], bases := [0] },
+   .defn 2 { fields := [(3, .plain .int)], bases := [1] },
+   .defn 3 declB,
+   .use 2 [(0, .dict [(50, .int 5)]), (1, .list [.dict [(50, .int 6)]]), (3, .int 1)]]
+
+/-- a diamond: D(B, C), B(A), C(A); A names 'E' declared last; D is used first -/
+def progDiamond : List Op :=
+  [.defn 0 { fields := [(0, .plain (.union [.quoted 1 4, .none]))] },
+   .defn 1 { fields := [(1, .plain .int)], bases := [0] },
+   .defn 2 { fields := [(2, .str 8 (.list (.name 4)))], bases := [0] },
+   .defn 3 { fields := [(3, .plain .int)], bases := [1, 2] },
+   .defn 4 declB,
+   .use 3 [(0, .dict [(50, .int 5)]), (2, .list [.dict [(50, .int 6)]])]]
+
+/-- Before fixes/C17-inherited-refs.patch a chain of any length fails at its far end … -/
+theorem C17_legacy_chain_witness :
+    (run ⟨true, true, false⟩ leaf0 10 State.init progChain).map Outcome.kind = [1] ∧
+    (specRun leaf0 10 [] progChain).map Outcome.kind = [0] := by decide
+
+/-- … with the fix the whole family resolves from the first call on the most derived class -/
+example : (run Cfg.fixed leaf0 10 State.init progChain).map Outcome.kind = [0] ∧
+          (run Cfg.fixed leaf0 10 State.init progDiamond).map Outcome.kind = [0] ∧
+          (specRun leaf0 10 [] progDiamond).map Outcome.kind = [0] := by decide
 
 /-- both classes live only in a function scope; A names its sibling B through a string -/
 def progLocal : List Op :=
@@ -593,6 +624,47 @@ example : ProgOKModule (fun _ => .data 1) [] progMulti := by
     simp only [List.mem_cons, List.mem_nil_iff, or_false] at hk
     rcases hk with rfl | rfl
     · exact ⟨declA2, by simp [lookupD], by simp [Decl.allNames, declA2, FieldAnn.allNames, names], by simp [declA2]⟩
+    · exact ⟨declB, by simp [lookupD], by simp [Decl.allNames, declB, FieldAnn.allNames, names], by simp [declB]⟩
+
+def declDoc : Decl := { fields := [(0, .str 7 (.name 3)), (1, .plain (.list (.quoted 1 3)))] }
+def declArt : Decl := { fields := [(2, .plain .int)], bases := [0] }
+def declBlog : Decl := { fields := [(3, .plain .int)], bases := [1] }
+
+theorem declOK_plainInt (cval : Cell → Ty) (f : Nat) (bs : List Name) :
+    DeclOK cval { fields := [(f, .plain .int)], bases := bs } := by
+  refine ⟨?_, ?_, ?_⟩
+  · intro fa hfa
+    simp only [List.mem_cons, List.mem_nil_iff, or_false] at hfa
+    subst hfa; simp [FieldAnnOK, AnnOK]
+  · intro fa hfa fb _ c hc
+    simp only [List.mem_cons, List.mem_nil_iff, or_false] at hfa
+    subst hfa; simp [FieldAnn.strCell] at hc
+  · simp [FieldAnn.strCell]
+
+/-- Non-vacuity with inheritance: the hypotheses hold for the three-level chain whose most derived
+class is used first (the reachable set contains the whole chain and the referenced class). -/
+example : ProgOKModule (fun _ => .data 3) []
+    [.defn 0 declDoc, .defn 1 declArt, .defn 2 declBlog, .defn 3 declB,
+     .use 2 [(0, .dict [(50, .int 5)]), (1, .list [.dict [(50, .int 6)]]), (3, .int 1)]] := by
+  refine ⟨⟨?_, ?_, ?_⟩, rfl, declOK_plainInt _ 2 [0], rfl, declOK_plainInt _ 3 [1], rfl,
+    declOK_plainInt _ 50 [], rfl, ⟨[0, 1, 2, 3], by simp, ?_⟩, trivial⟩
+  · intro fa hfa
+    simp only [declDoc, List.mem_cons, List.mem_nil_iff, or_false] at hfa
+    rcases hfa with rfl | rfl <;> simp [FieldAnnOK, AnnOK, direct]
+  · intro fa hfa fb hfb c hc
+    simp only [declDoc, List.mem_cons, List.mem_nil_iff, or_false] at hfa hfb
+    rcases hfa with rfl | rfl
+    · simp only [FieldAnn.strCell, List.mem_singleton] at hc
+      subst hc
+      rcases hfb with rfl | rfl <;> simp [FieldAnn.quotedCells, quotedOf]
+    · simp [FieldAnn.strCell] at hc
+  · simp [declDoc, FieldAnn.strCell]
+  · intro k hk
+    simp only [List.mem_cons, List.mem_nil_iff, or_false] at hk
+    rcases hk with rfl | rfl | rfl | rfl
+    · exact ⟨declDoc, by simp [lookupD], by simp [Decl.allNames, declDoc, FieldAnn.allNames, names], by simp [declDoc]⟩
+    · exact ⟨declArt, by simp [lookupD], by simp [Decl.allNames, declArt, FieldAnn.allNames, names], by simp [declArt]⟩
+    · exact ⟨declBlog, by simp [lookupD], by simp [Decl.allNames, declBlog, FieldAnn.allNames, names], by simp [declBlog]⟩
     · exact ⟨declB, by simp [lookupD], by simp [Decl.allNames, declB, FieldAnn.allNames, names], by simp [declB]⟩
 
 end Utv.C17
